@@ -136,6 +136,11 @@ def analyze(ns):
     # alive, so plain dereferencing is deterministic here.
     import weakref as _weakref
     _core._PATCH_REGISTRATIONS.pop(_weakref.ref.__call__, None)
+    # CrossHair bypasses functools.lru_cache (calls __wrapped__): a cache that changes behaviour
+    # (e.g. memoising a function that must return a fresh object) would be invisible.  Keep the
+    # real cache semantics; harness arguments reaching cached functions are concrete.
+    import functools as _functools
+    _core._PATCH_REGISTRATIONS.pop(_functools._lru_cache_wrapper.__call__, None)
     # Floats: bit-precise IEEE-754 binary64 only.  CrossHair's default also forks to a
     # real-number model whose paths it caps at 'unknown'; we never rely on it.
     from crosshair.libimpl import builtinslib as _bl
@@ -148,6 +153,7 @@ def analyze(ns):
       kw['per_path_timeout'] = ns.per_path_timeout
     opts = AnalysisOptionSet(**kw)
     condmod.REACHED.clear()
+    condmod.KNOWN_HITS.clear()
     checkables = analyze_function(fn, opts)
     if not checkables:
       res.update(status='error', message='no checkable condition found (missing post:?)')
@@ -176,6 +182,7 @@ def analyze(ns):
         res.update(status='unknown', message='no verdict: %r' % [s.name for s in states])
     res['paths'] = int(stats.get('num_paths', 0))
     res['reached'] = dict(condmod.REACHED)
+    res['known_hits'] = dict(condmod.KNOWN_HITS)
   except Exception as e:  # harness/import error
     res.update(status='error', message='%s: %s' % (type(e).__name__, e),
                traceback=traceback.format_exc()[-3000:])
